@@ -3,7 +3,7 @@
 From Coq Require Import List NArith ZArith Bool String Ascii Lia.
 From T4V Require Import Base.Str C11.Model C11.Spec C11.Proofs C11.LexProofs C11.LexSound C11.Layout C11.Pipeline C11.Sound C11.Complete C11.Loop C11.Card C11.Handover C11.EndToEnd C11.Regex.
 From T4V Require C11.Exec C11.RegexProofs C11.RegexBound6 C15.Model.
-From T4V Require Import C11.LinkC15 C11.NormalForm C11.PegProofs.
+From T4V Require Import C11.LinkC15 C11.NormalForm C11.PegProofs C11.PegAuto.
 Import ListNotations.
 Close Scope string_scope.
 Open Scope list_scope.
@@ -355,13 +355,40 @@ Theorem C11_get_ast2_eq_accepted : forall (s : String.string) (a : ast),
 Proof. exact get_ast2_eq_accepted. Qed.
 Print Assumptions C11_get_ast2_eq_accepted.
 
+(* round 4: the character-level PEG on the normal form of ANY written token sequence
+   (expression or not) equals the pushdown automaton on its tokens, results and
+   exceptions alike — a simulation of [run] by the PEG, stack frame by stack frame *)
+Theorem C11_peg_any_tokens : forall ws : written, wf_written ws = true ->
+  peg_start (normal_form ws) = parse_tokens (tokens_written ws).
+Proof. exact peg_any_tokens. Qed.
+Print Assumptions C11_peg_any_tokens.
+
+(* UNBOUNDED: the two models agree on EVERY string the lexer can tokenize, accepted
+   or rejected, whatever its length *)
+Theorem C11_get_ast2_eq_lexable : forall s : String.string,
+  ~ In TBad (tokens_of s) -> get_ast2 s = get_ast s.
+Proof. exact get_ast2_eq_lexable. Qed.
+Print Assumptions C11_get_ast2_eq_lexable.
+
 (* PARTIAL towards "get_ast2 s = get_ast s for all strings s": what is still
-   missing is the rejected side outside the layout family, i.e. that get_ast2
-   accepts nothing that is not a writing of an expression (soundness of the
-   character-level PEG + rewriting steps on arbitrary strings) and raises the same
-   exception there.  Covered by the bounded theorems (length <= 6) and the thorough
-   tier's computation.  Proved: on a writing, get_ast2 only depends on the normal
-   form (layout invariance of the code-shaped model itself). *)
+   missing are exactly the strings with a LEXICAL error ([tokens_of s] contains
+   TBad: a sign without digits, '#' not followed by digits or '(', a literal
+   glued to '+', '-', '.', a stray '.'), over the MCNP alphabet (with the private
+   characters '_' '^' '*' the equality is false, next theorem).  There
+   get_ast s is an error (C11_get_ast_sound); that get_ast2 s is the same error
+   needs the rewriting steps on arbitrary malformed text and is covered by the
+   bounded theorems (length <= 6) and the thorough tier's computation only.
+   Proved besides: on a writing, get_ast2 only depends on the normal form. *)
+(* without the alphabet assumption the equality is FALSE: the code-shaped model
+   (like the code) accepts the private syntax that normalize() produces, the
+   lexer model rejects it — the characters '_' '^' '*' are outside the input
+   alphabet of the property (ASSUMPTIONS) *)
+Theorem C11_get_ast2_private_syntax_refuted :
+  get_ast2 "_(1)"%string = Ok (ASurf (-1) None) /\ get_ast "_(1)"%string = Err EParse /\
+  get_ast2 "1*2"%string = Ok (AAnd (ASurf 1 None) (ASurf 2 None)) /\ get_ast "1*2"%string = Err EParse.
+Proof. repeat split; vm_compute; reflexivity. Qed.
+Print Assumptions C11_get_ast2_private_syntax_refuted.
+
 Theorem C11_get_ast2_layout_partial : forall (ws ws' : written) (trail trail' : nat),
   wf_written ws = true -> wf_written ws' = true -> ws <> [] ->
   map (fun p => watom (snd p)) ws = map (fun p => watom (snd p)) ws' ->
